@@ -266,6 +266,7 @@ class World:
         self.prepared: dict[str, Any] = {}
         self.metric_objects: dict[int, Any] = {}
         self.memory_loggers: dict[str, Any] = {}
+        self.gc_on_exit = False
         self.exit_snapshot: dict[str, dict[str, bool]] = {}  # block -> {task spawned into it: done() at the instant the block was left}
         self.capture = LogCapture()
         self.uid = 10_000
@@ -283,6 +284,11 @@ class World:
 
     def event(self, *ev: Any) -> None:
         self.events.append(ev)
+        if self.gc_on_exit and ev and ev[0] in ("exit", "body-end", "body-start", "enter"):
+            # a cyclic collection around every block boundary: whatever the library still needs has to be strongly reachable
+            import gc
+
+            gc.collect()
 
     def fresh(self) -> int:
         self.uid += 1
